@@ -77,6 +77,10 @@ func (in *mvtIntern) id(v interface{}) [2]int {
 		return [2]int{1, int(t)}
 	case float64:
 		return [2]int{1, int(t)}
+	case int8, int16, int32, uint, uint8, uint16:
+		return [2]int{1, int(reflect.ValueOf(v).Convert(reflect.TypeOf(int64(0))).Int())}
+	case float32:
+		return [2]int{1, int(t)}
 	}
 	return [2]int{0, 0}
 }
@@ -209,6 +213,23 @@ func init() {
 				for i := range r {
 					r[i] = pt(small)
 				}
+				if c.rng.Intn(3) == 0 { // a tiny ring far from the origin: winding must not depend on where the ring is
+					ox := float64((1<<26)+c.rng.Intn((1<<28)-(1<<26)-64)) * float64(1-2*c.rng.Intn(2))
+					oy := float64((1<<26)+c.rng.Intn((1<<28)-(1<<26)-64)) * float64(1-2*c.rng.Intn(2))
+					w := 1 + c.rng.Intn(3)
+					for i := range r {
+						r[i] = orb.Point{ox + float64(c.rng.Intn(w+1)), oy + float64(c.rng.Intn(w+1))}
+					}
+					// no vertex repeated in a row (also around the closure): a ring spelled a,b,c,a,a cannot keep its
+					// doubled closing vertex through a format that leaves the closing vertex out
+					dup := false
+					for i := range r {
+						dup = dup || r[i] == r[(i+1)%len(r)]
+					}
+					if dup {
+						continue
+					}
+				}
 				closed := append(r.Clone(), r[0])
 				o := closed.Orientation()
 				if o == 0 {
@@ -340,6 +361,10 @@ func init() {
 				return float64(n) * 1e-7
 			}
 		}
+		// results of the previous event, kept to see that later calls leave them alone (no shared buffers)
+		var prevData, prevGz, prevDataCopy, prevGzCopy []byte
+		var prevDec mvt.Layers
+		var prevDecText string
 		nev := c.pick(4000, 120000)
 		for i := 0; i < nev; i++ {
 			in := &mvtIntern{bits: newBitIntern(), strs: map[string]int{}, keys: map[string]int{}, raws: map[string]int{}}
@@ -356,17 +381,35 @@ func init() {
 				feats := []interface{}{}
 				for fi := 0; fi < c.rng.Intn(5); fi++ {
 					f := geojson.NewFeature(geom(0))
-					switch c.rng.Intn(6) {
+					idv := c.rng.Intn(1 << 30)
+					if c.rng.Intn(4) == 0 {
+						idv = c.rng.Intn(3) // 0 is an id like any other
+					}
+					switch c.rng.Intn(14) {
 					case 0:
-						f.ID = c.rng.Intn(1000)
+						f.ID = idv % 1000
 					case 1:
-						f.ID = int64(c.rng.Intn(1 << 30))
+						f.ID = int64(idv)
 					case 2:
-						f.ID = uint32(c.rng.Intn(1 << 30))
+						f.ID = uint32(idv)
 					case 3:
-						f.ID = float64(c.rng.Intn(5000))
+						f.ID = float64(idv % 5000)
 					case 4:
-						f.ID = uint64(c.rng.Intn(1 << 30))
+						f.ID = uint64(idv)
+					case 5:
+						f.ID = int8(idv % 128)
+					case 6:
+						f.ID = int16(idv % 30000)
+					case 7:
+						f.ID = int32(idv)
+					case 8:
+						f.ID = uint(idv)
+					case 9:
+						f.ID = uint8(idv % 256)
+					case 10:
+						f.ID = uint16(idv % 60000)
+					case 11:
+						f.ID = float32(idv % 4096)
 					}
 					nprops := c.rng.Intn(5)
 					if nprops == 4 {
@@ -452,6 +495,21 @@ func init() {
 				e["err"] = "decoded coordinate is not an integer"
 			}
 			e["dec"], e["decgz"] = d1, d2
+			// the bytes and layers returned for the previous event are still what they were
+			e["stable"] = 1
+			if !bytes.Equal(prevData, prevDataCopy) || !bytes.Equal(prevGz, prevGzCopy) {
+				e["stable"] = 0
+			}
+			if prevDec != nil {
+				if b, _ := json.Marshal(prevDec); string(b) != prevDecText {
+					e["stable"] = 0
+				}
+			}
+			prevData, prevGz = data, gz
+			prevDataCopy, prevGzCopy = append([]byte{}, data...), append([]byte{}, gz...)
+			prevDec = dec
+			b, _ := json.Marshal(dec)
+			prevDecText = string(b)
 			c.emit(e)
 		}
 	})
